@@ -142,7 +142,10 @@ OutLife(m, f, l) ==
               ELSE IF x.o = "rst"
               THEN Viol(Hit(m3, "C04.after_rst"), "C04.after_rst", l, s,
                         IF ty = "RST_STREAM" /\ f.ch = 0 /\ f.cl = STREAM_CLOSED /\ x.inAfterRst
-                        THEN "stream_closed_for_late_frame_on_forgotten_stream" ELSE ty)
+                        THEN "stream_closed_for_late_frame_on_forgotten_stream"
+                        ELSE IF ty = "RST_STREAM" /\ f.ch = 0 /\ f.cl = STREAM_CLOSED /\ x.resR /\ ~x.surfaced /\ x.inAny
+                        THEN "stream_closed_for_peer_frame_on_a_cancelled_promised_stream_whose_reset_was_still_queued"
+                        ELSE ty)
               ELSE IF x.o = "es"
               THEN Check(m3, "C04.after_es", ty \in {"WINDOW_UPDATE", "RST_STREAM"}, l, s, ty)
               ELSE IF x.rstBound /\ ~(x.peerBad /\ ty = "RST_STREAM")
@@ -607,7 +610,8 @@ StepQ(m, e, l) ==
                          ELSE <<m.rcw, heldAll>>)
               ELSE m1
         stuck == {s \in DOMAIN m.st : /\ m.st[s].zeroed /\ ~m.st[s].rdead /\ ~m.st[s].recvDrop /\ m.st[s].i = "open"
-                                       /\ m.st[s].o # "rst" /\ HeldBy(m, m.st[s]) = 0}
+                                       /\ m.st[s].o # "rst" /\ HeldBy(m, m.st[s]) = 0
+                                       /\ m.la.iws > 0}                \* (a configured size of 0 cannot be "restored" above 0)
         m3 == IF \E s \in DOMAIN m.st : m.st[s].zeroed /\ ~m.st[s].rdead /\ ~m.st[s].recvDrop /\ m.st[s].i = "open"
               THEN Check(m2, "C03.stream_leak", stuck = {}, l, IF stuck = {} THEN 0 ELSE CHOOSE s \in stuck : TRUE, stuck)
               ELSE m2
